@@ -3,10 +3,10 @@
 # Confirms in a scratch worktree: demo passes on the unchanged tree, patch applies, demo fails with it, stable tests pass
 # with it. On success copies the seed to /verif/seeded/<id>/ with a "confirmed" record in meta.json.
 set -u
-S="$1"; ID="$2"
+S="$(realpath "$1")"; ID="$2"
 WT="/tmp/mt/confirm_$ID"; rm -rf "$WT"; git -C /repo worktree prune; mkdir -p /tmp/mt
 git -C /repo worktree add -q --detach "$WT" HEAD || exit 3
-run_demo() { ( cd "$WT" && PYTHONPATH="$WT" timeout 120 setsid /venv/bin/python "$S/demo.py" >/tmp/mt/demo_$ID.out 2>&1 </dev/null; echo $? ); }
+run_demo() { ( cd "$WT" && PYTHONPATH="$WT" timeout 120 /venv/bin/python "$S/demo.py" >/tmp/mt/demo_$ID.out 2>&1 </dev/null; echo $? ); }
 c1=$(run_demo); c1b=$(run_demo)
 git -C "$WT" apply "$S/patch.diff" || { echo "$ID: PATCH DOES NOT APPLY"; git -C /repo worktree remove --force "$WT"; exit 4; }
 m1=$(run_demo); m1b=$(run_demo)
